@@ -1,5 +1,85 @@
-"""C02-R7/R8 placeholder; filled once Engine B exists"""
+"""C02-R7 / C03-R2: comparison shapes of the value checks and cardinalities
+(Engine B): the throw condition, evaluated over all orderings of value and
+bound(s), equals the table the property states (lower bound inclusive, upper
+bound exclusive, lengths inclusive, count > max)."""
+from ..boolshape import truth_table, Unsupported
+from ..facts import AnalysisBroken
 
 
-def run(chk, prog):
-    pass
+def _val(env, suffix):
+    for k, v in env.items():
+        if k.endswith(suffix):
+            return v
+    raise KeyError(suffix)
+
+
+def _conv(env):
+    for k, v in env.items():
+        if k.startswith('lexical_cast(') or k == 'native':
+            return v
+    raise KeyError('converted value')
+
+
+SPECS = [
+    # (class q-name, method, human spec, oracle(env_before) -> True if it must throw, min instances)
+    ('celma::prog_args::detail::CheckLower', 'checkValue', 'rejects exactly value < lower bound (bound itself accepted)',
+     lambda e: _conv(e) < _val(e, 'mCheckValue'), 2),
+    ('celma::prog_args::detail::CheckUpper', 'checkValue', 'rejects exactly value >= upper bound (exclusive upper bound)',
+     lambda e: _conv(e) >= _val(e, 'mCheckValue'), 1),
+    ('celma::prog_args::detail::CheckRange', 'checkValue', 'rejects exactly value < lower or value >= upper',
+     lambda e: _conv(e) < _val(e, 'mLower') or _conv(e) >= _val(e, 'mUpper'), 2),
+    ('celma::prog_args::detail::CheckMinLength', 'checkValue', 'rejects exactly length < minimum',
+     lambda e: _val(e, 'val') < _val(e, 'mMinLength'), 1),
+    ('celma::prog_args::detail::CheckMaxLength', 'checkValue', 'rejects exactly length > maximum',
+     lambda e: _val(e, 'val') > _val(e, 'mMaxLength'), 1),
+    ('celma::prog_args::detail::CardinalityMax', 'gotValue', 'throws exactly when the new count exceeds the maximum (-1: unlimited)',
+     lambda e: _val(e, 'mMaxNumAcceptedValues') != -1 and _val(e, 'mNumValues') + 1 > _val(e, 'mMaxNumAcceptedValues'), 1),
+    ('celma::prog_args::detail::CardinalityExact', 'gotValue', 'throws exactly when the new count exceeds the expected number',
+     lambda e: _val(e, 'mNumValues') + 1 > _val(e, 'mNumExpectedValues'), 1),
+    ('celma::prog_args::detail::CardinalityRange', 'gotValue', 'throws exactly when the new count exceeds the maximum (-1: unlimited)',
+     lambda e: _val(e, 'mMaxNumValues') != -1 and _val(e, 'mNumValues') + 1 > _val(e, 'mMaxNumValues'), 1),
+    ('celma::prog_args::detail::CardinalityExact', 'check', 'used argument must have exactly the expected number of values',
+     lambda e: _val(e, 'mNumValues') > 0 and _val(e, 'mNumValues') != _val(e, 'mNumExpectedValues'), 1),
+    ('celma::prog_args::detail::CardinalityRange', 'check', 'used argument must have at least the minimum number of values',
+     lambda e: _val(e, 'mNumValues') != 0 and _val(e, 'mNumValues') < _val(e, 'mMinNumValues'), 1),
+]
+
+
+def run(chk, prog, rule='R7', accept_direction=False):
+    chk.rule(rule, 'comparison shapes of value checks and cardinalities equal the documented tables '
+             '(exhaustive over all orderings)', 10)
+    for clsq, meth, spec, oracle, minimum in SPECS:
+        fs = [f for f in prog.functions if f.classq == clsq and f.short == meth]
+        chk.require(len(fs) >= minimum, '%s::%s: %d instantiations found, expected >= %d' % (clsq, meth, len(fs), minimum))
+        for f in fs:
+            try:
+                atoms, rows = truth_table(f)
+            except Unsupported as u:
+                raise AnalysisBroken('%s: shape not interpretable (%s)' % (f.key, u))
+            bad = None
+            counted_ok = True
+            for env, out, env_after in rows:
+                try:
+                    must_throw = bool(oracle(env))
+                except KeyError as ke:
+                    raise AnalysisBroken('%s: atom %s not found among %s' % (f.key, ke, sorted(env)))
+                threw = out[0] == 'throw'
+                if threw != must_throw:
+                    bad = (env, out, must_throw)
+                    break
+                if meth == 'gotValue' and not threw:
+                    # an accepted value must have been counted
+                    unlimited = any(k.endswith(('mMaxNumAcceptedValues', 'mMaxNumValues')) and v == -1
+                                    for k, v in env.items())
+                    if not unlimited and _val(env_after, 'mNumValues') != _val(env, 'mNumValues') + 1:
+                        counted_ok = False
+                        bad = (env, ('not counted', _val(env_after, 'mNumValues')), must_throw)
+                        break
+            cls_short = (f.cls or clsq).replace('celma::prog_args::detail::', '')
+            chk.check(bad is None, rule, f.name, '%s [%s]' % (spec, cls_short), f.loc(),
+                      '' if bad is None else 'for %s the code %s but the documented rule says %s' % (
+                          {k: v for k, v in bad[0].items()}, bad[1], 'reject' if bad[2] else 'accept'))
+            if bad is None and len(chk.samples) < 12:
+                chk.samples.append({'function': f.name, 'atoms': [a for a, _ in atoms], 'rows': len(rows),
+                                    'example_row': {'env': rows[len(rows) // 2][0],
+                                                    'outcome': rows[len(rows) // 2][1][0]}})
